@@ -246,3 +246,34 @@ Proof. split; vm_compute; reflexivity. Qed.
 
 Example witness_violates_guard : ~ round14_Q (8 # 1000000000000000) == 8 # 1000000000000000.
 Proof. vm_compute. discriminate. Qed.
+
+(* ---------- one prior object used several times (Machine.v / ProofsM.v) ---------- *)
+From PAFC02 Require Import Machine ProofsM.
+Close Scope Q_scope.
+
+(* the hypothesis "sound policy" of C02_history_independent is satisfiable: the memo-less object of the pinned tree *)
+Example machine_sound_not_vacuous : sound FArith (FSpecial []) Repaired no_cache prior_a.
+Proof. apply no_cache_sound. Qed.
+
+(* GaussianPrior(0, 1, -1, 1): value_for(0.5) = 0.0; after prior.lower_limit, prior.upper_limit = 1, 2 the same call
+   raises (erfinv(0) = 0 from scipy) -- the hypothesis of C02_memo_by_query_refuted holds for this pair of limits *)
+Definition tbl_mach : table := [(1%positive, 0%float, 0%float)].
+Definition prior_mach : prior float := mkPrior Gaussian 0%float 1%float (-1)%float 1%float.
+Definition q_mach : query (N := float) := QValue false 0x1p-1%float.
+
+Example machine_history_example :
+  run FArith (FSpecial tbl_mach) Repaired no_cache prior_mach prior_mach tt [Use q_mach; SetLimits 1%float 2%float; Use q_mach]
+  = [Some (AResult (Ok 0%float)); None; Some (AResult LimitExc)].
+Proof. vm_compute. reflexivity. Qed.
+
+Example memo_by_query_hypothesis_satisfiable :
+  fresh FArith (FSpecial tbl_mach) Repaired prior_mach prior_mach q_mach <>
+  fresh FArith (FSpecial tbl_mach) Repaired prior_mach (set_limits prior_mach 1%float 2%float) q_mach.
+Proof. vm_compute. discriminate. Qed.
+
+(* and the stale memo then hands out a value outside the limits in force: 0.0 although the limits are [1, 2] *)
+Example memo_by_query_returns_out_of_limit :
+  forall qeqb : query -> query -> bool, qeqb q_mach q_mach = true ->
+  last (run FArith (FSpecial tbl_mach) Repaired (by_query qeqb) prior_mach prior_mach [] [Use q_mach; SetLimits 1%float 2%float; Use q_mach]) None
+  = Some (AResult (Ok 0%float)).
+Proof. intros qeqb H. simpl. rewrite H. vm_compute. reflexivity. Qed.
